@@ -25,13 +25,13 @@ import (
 
 func TestMain(m *testing.M) {
 	vcore.Init("C02", "exploration",
-		"Create/Update PDR and FAR drawn as semantic records (PDR id, precedence, PDI{source interface Access/Core/SGi/CP, F-TEID, UE IPv4, 0-3 SDF filters with grammar-generated flow description and/or filter id, ignored Network Instance / Application ID}, outer-header removal, FAR id, 0-4 QER ids, 0-4 URR ids; "+
+		"Create/Update PDR and FAR drawn as semantic records (PDR id, precedence, PDI{source interface Access/Core/SGi/CP, F-TEID (IPv4 or dual stack V4|V6), UE IP address (IPv4, or IPv4v6 with both addresses), 0-3 SDF filters with grammar-generated flow description and/or filter id, ignored Network Instance / Application ID}, outer-header removal, FAR id, 0-4 QER ids, 0-4 URR ids; "+
 			"FAR id, apply action in 1- and 2-octet form, (Update) Forwarding Parameters{destination interface, network instance, outer-header creation GTP-U/UDP/IPv4 or UDP/IPv4, forwarding policy, PFCPSM request flags}, BAR id), numeric fields boundary-biased, SEIDs over the 64-bit range, "+
 			"rendered to a grouped IE with a drawn permutation of its children (and of the PDI's / forwarding parameters' children) and passed to the real Gtp5g.CreatePDR/UpdatePDR/CreateFAR/UpdateFAR on a simulated netlink endpoint. "+
 			"Oracle: the captured request is decoded by a strict attribute walker (widths, no surplus or duplicate attributes) into a canonical rule and compared field by field with the value computed from the record alone "+
 			"(command, EXCL/REPLACE flags, link, (SEID, id), every SDF filter with src/dst swapped for uplink, PDR_UNIX_SOCKET_PATH, PFCPSM flags ...); cross-checked with gtp5gnl.DecodePDR/DecodeFAR; metamorphic: a second rendering with another child order must give the same canonical rule. "+
 			"non-trivial = >= 3 optional children present, a non-identity child order, and a field >= 2^16; distinct by (record, order)",
-		"IPv6, Ethernet filters, C-TAG/S-TAG outer headers, SDF filters with ToS/SPI/flow label are outside the IE set the driver supports and are not generated (they are in C07's fuzz domain)",
+		"IPv6-only F-TEIDs / UE addresses (the data plane is IPv4 only; of a dual-stack IE the IPv4 address must arrive), Ethernet filters, C-TAG/S-TAG outer headers, SDF filters with ToS/SPI/flow label are outside the IE set the driver supports and are not generated (they are in C07's fuzz domain)",
 		"the simulated kernel only acknowledges requests; the oracle reads the request bytes",
 		"Update FAR additionally issues GET_FAR/GET_PDR/GET_QER look-ups for buffered packets (C13's subject); only the ADD request is 'the rule handed to the data plane'")
 	vcore.Main(m)
@@ -55,6 +55,7 @@ type PDR struct {
 	FTEID   *FTEID   `json:"fteid,omitempty"`
 	UEIP    *[4]byte `json:"ueip,omitempty"`
 	UEFlags uint8    `json:"ue_flags,omitempty"`
+	UEV6    string   `json:"ue_v6,omitempty"` // with flag V6: an IPv4v6 PDU session, both addresses in the IE
 	SDFs    []SDF    `json:"sdfs,omitempty"`
 	NetInst string   `json:"net_inst,omitempty"`
 	AppID   string   `json:"app_id,omitempty"`
@@ -70,6 +71,7 @@ type PDR struct {
 type FTEID struct {
 	TEID uint32  `json:"teid"`
 	IP   [4]byte `json:"ip"`
+	V6   string  `json:"v6,omitempty"` // dual stack: flags V4|V6, the IPv6 address follows the IPv4 one
 }
 
 type OHC struct {
@@ -130,10 +132,18 @@ func (p *PDR) IE(order, pdiOrd []int) (*ie.IE, bool) {
 	if p.HasPDI {
 		pdi := []*ie.IE{ie.NewSourceInterface(p.SrcIf)}
 		if p.FTEID != nil {
-			pdi = append(pdi, ie.NewFTEID(0x01, p.FTEID.TEID, net.IP(p.FTEID.IP[:]), nil, 0))
+			if p.FTEID.V6 != "" {
+				pdi = append(pdi, ie.NewFTEID(0x03, p.FTEID.TEID, net.IP(p.FTEID.IP[:]), net.ParseIP(p.FTEID.V6), 0))
+			} else {
+				pdi = append(pdi, ie.NewFTEID(0x01, p.FTEID.TEID, net.IP(p.FTEID.IP[:]), nil, 0))
+			}
 		}
 		if p.UEIP != nil {
-			pdi = append(pdi, ie.NewUEIPAddress(p.UEFlags, ipStr(*p.UEIP), "", 0, 0))
+			if p.UEFlags&0x01 != 0 {
+				pdi = append(pdi, ie.NewUEIPAddress(p.UEFlags, ipStr(*p.UEIP), p.UEV6, 0, 0))
+			} else {
+				pdi = append(pdi, ie.NewUEIPAddress(p.UEFlags, ipStr(*p.UEIP), "", 0, 0))
+			}
 		}
 		for _, s := range p.SDFs {
 			fd := ""
@@ -293,7 +303,9 @@ func (p *PDR) want() canon {
 	if p.HasPDI {
 		v := p.SrcIf
 		c.SrcIf = &v
-		c.FTEID = p.FTEID
+		if p.FTEID != nil {
+			c.FTEID = &FTEID{TEID: p.FTEID.TEID, IP: p.FTEID.IP} // gtp5g is IPv4 only: the IPv4 address of a dual-stack F-TEID
+		}
 		c.UEIP = p.UEIP
 		for _, s := range p.SDFs {
 			var cs cSDF
@@ -839,10 +851,16 @@ func genPDR(t *rapid.T) *PDR {
 		p.SrcIf = rapid.SampledFrom([]uint8{0, 0, 1, 1, 2, 3}).Draw(t, "srcif")
 		if rapid.Bool().Draw(t, "hasfteid") {
 			p.FTEID = &FTEID{TEID: u32gen.Draw(t, "teid"), IP: ipgen(t, "fteidip")}
+			if rapid.IntRange(0, 3).Draw(t, "fteid_dual") == 0 {
+				p.FTEID.V6 = fmt.Sprintf("2001:db8::%x", rapid.IntRange(1, 0xffff).Draw(t, "fteid_v6"))
+			}
 		}
 		if rapid.Bool().Draw(t, "hasueip") {
 			p.UEIP = ptr(ipgen(t, "ueip"))
-			p.UEFlags = rapid.SampledFrom([]uint8{0x02, 0x06}).Draw(t, "ueflags")
+			p.UEFlags = rapid.SampledFrom([]uint8{0x02, 0x06, 0x02, 0x06, 0x03, 0x07}).Draw(t, "ueflags")
+			if p.UEFlags&0x01 != 0 {
+				p.UEV6 = fmt.Sprintf("2001:db8:1::%x", rapid.IntRange(1, 0xffff).Draw(t, "ue_v6"))
+			}
 		}
 		n := rapid.SampledFrom([]int{0, 0, 1, 1, 2, 3}).Draw(t, "nsdf")
 		for i := 0; i < n; i++ {
@@ -929,6 +947,9 @@ func account(c Case, ident bool) {
 		}
 		if len(p.SDFs) >= 2 {
 			vcore.E.Class("several_sdf_filters")
+		}
+		if (p.FTEID != nil && p.FTEID.V6 != "") || p.UEFlags&0x01 != 0 {
+			vcore.E.Class("dual_stack_fteid_or_ue_address")
 		}
 	} else {
 		f := c.FAR
